@@ -36,10 +36,10 @@ META = {
 }
 
 TRANSFORMS = ("map", "filter", "remove", "map_partitions", "pair_pluck", "starmap", "flatten", "repartition",
-              "zip", "concat", "accumulate")
+              "zip", "concat", "accumulate", "concat", "repartition", "map", "zip_self", "map_self")
 TERMINALS = ("identity", "distinct", "frequencies", "topk", "fold", "reduction", "foldby", "groupby_disk",
              "groupby_tasks", "join", "product", "take", "sum", "max", "min", "mean", "var", "std", "count",
-             "any", "all")
+             "any", "all", "product", "join", "foldby", "product_self", "join_self")
 
 
 def tier_cfg(tier):
@@ -121,6 +121,15 @@ def run_one(tape, cfg):
             elif st == "repartition":
                 b = b.repartition(npartitions=rep)
                 ref_parts = None
+            elif st == "zip_self":
+                # the same (possibly lazy) partition referenced twice by one task
+                b = db.zip(b, b).starmap(bf.addpair)
+                ref = [x + x for x in ref]
+                ref_parts = [[x + x for x in p] for p in ref_parts] if ref_parts is not None else None
+            elif st == "map_self":
+                b = b.map(bf.add, b)
+                ref = [x + x for x in ref]
+                ref_parts = [[x + x for x in p] for p in ref_parts] if ref_parts is not None else None
             elif st == "zip":
                 b = db.zip(b, b.map(bf.mul2)).map(bf.first)
             elif st == "concat":
@@ -153,11 +162,12 @@ def run_one(tape, cfg):
         elif term == "reduction":
             res, want, mode = b.reduction(bf.sum_perpartition, bf.sum_aggregate, **kw), sum(ref), "scalar"
         elif term == "foldby":
-            res = b.foldby(bf.mod3, bf.fold_sum, 0, bf.add, 0, **kw)
-            d = {}
-            for x in ref:
-                d[x % 3] = d.get(x % 3, 0) + x
-            want, mode = d, "dict"
+            # count per key: binop (acc + 1) and combine (add) are NOT interchangeable
+            if tape.chance(1, 2, "combine_initial"):
+                res = b.foldby(bf.mod3, bf.count_binop, 0, bf.add, 0, **kw)
+            else:
+                res = b.foldby(bf.mod3, bf.count_binop, 0, bf.add, **kw)
+            want, mode = dict(Counter(x % 3 for x in ref)), "dict"
         elif term in ("groupby_disk", "groupby_tasks"):
             out.probe(term)
             if term == "groupby_disk":
@@ -171,6 +181,14 @@ def run_one(tape, cfg):
         elif term == "join":
             res = b.join(other, bf.mod3, bf.mod3)
             want = sorted((o, x) for x in ref for o in other if o % 3 == x % 3)
+            mode = "sorted"
+        elif term in ("product_self", "join_self"):
+            if term == "join_self" and b.npartitions == 1:
+                res = b.join(b, bf.mod3, bf.mod3)
+                want = sorted((o, x) for x in ref for o in ref if o % 3 == x % 3)
+            else:
+                res = b.product(b)
+                want = sorted((x, y) for x in ref for y in ref)
             mode = "sorted"
         elif term == "product":
             ob = db.from_sequence(other, npartitions=min(2, len(other)))
